@@ -174,6 +174,27 @@ def _props_file(v, pid):
     return res
 
 
+def coqchk(timeout=3000):
+    """Independent re-check of every compiled Props module (and everything it depends on) with coqchk; returns
+    (ok, axioms_text, log).  Used in the thorough tier; the report is kept in evidence/coqchk.txt."""
+    mods = []
+    for l in open(os.path.join(COQ, "_CoqProject")):
+        l = l.strip()
+        if l.startswith("Props/") and l.endswith(".v"):
+            mods.append("Verif.Props." + os.path.basename(l)[:-2])
+    with lock("coq"):
+        rc, out = sh("coqchk -silent -o -R . Verif " + " ".join(mods), cwd=COQ, timeout=timeout)
+    m = re.search(r"\* Axioms:\s*(.*?)\n\s*\n", out, re.S)
+    axioms = m.group(1).strip() if m else "?"
+    try:
+        os.makedirs(os.path.join(ROOT, "evidence"), exist_ok=True)
+        open(os.path.join(ROOT, "evidence", "coqchk.txt"), "w").write(
+            "coqchk -silent -o -R . Verif %s\n(exit %s)\n%s\n" % (" ".join(mods), rc, out[-6000:]))
+    except OSError:
+        pass
+    return rc == 0 and axioms == "<none>", axioms, out[-3000:]
+
+
 def run_case_file(path):
     """Evaluate one generated cases_*.v; returns (ok, list_of_mismatching_ids, log)."""
     d = os.path.dirname(path)
